@@ -4,7 +4,7 @@ META = {
     "functions_encoded": ["rlib_mint::Modular::<M>::{new,inv,pow,inner,md}", "Add/Sub/Mul/Div/Neg and AddAssign/SubAssign/MulAssign/DivAssign", "derived PartialEq"],
     "bounds": {"quick": "per modulus in {7,12,998244353,2^31-1}: all i64 constructor arguments, all operand pairs for + - neg *; inv,/ for all units (M<=13) or the windows [1,16],[M-16,M-1]; pow vs naive product d<=16; pow over ALL 64-bit exponents at p=2",
                "thorough": "moduli {2,3,4,7,12,251,256,65537,998244353,1000000007,2^31-2,2^31-1}; inv for all units at M in {2..13,16,61,251,256}; pow all 64-bit exponents at p in {2,3,5,7}"},
-    "outside_claim": ["moduli not in the list for inv, / and pow", "pow with large exponents at large moduli", "Display/Debug/Show", "Readable (one-line forwarder new(read::<i64>()))", "M >= 2^31 (outside the property)"],
+    "outside_claim": ["moduli not in the list for inv, / and pow (inv at 65537 and above, pow at the 30/31-bit moduli and new/* at 1000000007 gave no CBMC verdict within 3000 s and are not claimed; new,+,-,* for every modulus are decided by the SMT engine)", "pow with large exponents at large moduli", "Display/Debug/Show", "Readable (one-line forwarder new(read::<i64>()))", "M >= 2^31 (outside the property)"],
     "stubs_and_assumes": ["elements are built by new(v) with 0<=v<M after new is shown onto [0,M)", "specification shares the i64 remainder term with the implementation (rem_euclid)"],
     "assumptions": ["Kani/CBMC translation of MIR is faithful", "one instantiation per modulus (const generic)"],
 }
@@ -26,13 +26,15 @@ def obligations(tier, seed):
             add("c06_new_m%d" % m, covers=2, desc="new(v) = v mod M in [0,M) for every i64 v", bounds="M=%d, all v" % m, timeout=1800)
             add("c06_addsub_m%d" % m, covers=3, desc="+,-,neg", bounds="M=%d, all pairs" % m)
             continue
-        add("c06_new_m%d" % m, covers=2, desc="new(v) = v mod M in [0,M) for every i64 v", bounds="M=%d, all v" % m)
+        if m != 1000000007:     # no CBMC verdict in 3000 s at this modulus (new and * for EVERY modulus are decided by the SMT engine below)
+            add("c06_new_m%d" % m, covers=2, desc="new(v) = v mod M in [0,M) for every i64 v", bounds="M=%d, all v" % m)
         add("c06_addsub_m%d" % m, covers=3, desc="+,-,neg and assigning forms give the canonical representative; == is representative equality", bounds="M=%d, all pairs" % m)
-        add("c06_mul_m%d" % m, covers=1, desc="* and *= give the representative of the integer product", bounds="M=%d, all pairs" % m)
-    inv_m = [2, 7, 12, 13] if tier == "quick" else [2, 3, 4, 5, 6, 7, 8, 9, 10, 11, 12, 13, 16, 61, 251, 256, 65537, 998244353, 1000000007, 2147483646, 2147483647]
+        if m != 1000000007:
+            add("c06_mul_m%d" % m, covers=1, desc="* and *= give the representative of the integer product", bounds="M=%d, all pairs" % m)
+    inv_m = [2, 7, 12, 13] if tier == "quick" else [2, 3, 4, 5, 6, 7, 8, 9, 10, 11, 12, 13, 16, 61, 251, 256]     # 65537 and above: no CBMC verdict in 3000 s (stated outside the claim)
     for m in inv_m:
         add("c06_inv_m%d" % m, covers=2, desc="y*inv(y)=1 and (x/y)*y=x for every unit y (windows at large M)", bounds="M=%d" % m)
-    pow_m = [2, 7, 12] if tier == "quick" else [2, 3, 4, 7, 9, 12, 13, 998244353, 2147483647]
+    pow_m = [2, 7, 12] if tier == "quick" else [2, 3, 4, 7, 9, 12, 13]     # the 30/31-bit moduli: no CBMC verdict in 3000 s
     for m in pow_m:
         add("c06_pow_m%d" % m, covers=1, desc="pow(d) = d-fold product", bounds="M=%d, d<=16, all bases" % m)
     for p in ([2] if tier == "quick" else [2, 3, 5, 7]):
